@@ -126,6 +126,27 @@ func makeView(ws *WalkScn, blocks []*commonmark.RootBlock) *walkView {
 			}
 			return n.Child(j)
 		}
+	case "count-only":
+		// only ChildCount is supplied: selected nodes are presented as leaves;
+		// Child stays the default accessor
+		v.root = pickRoot()
+		v.childCount = func(n commonmark.Node) int {
+			if n != v.root && mix64(ws.HideSeed^nodeKey(n))%3 == 0 {
+				return 0
+			}
+			c := n.ChildCount()
+			if c > 1 && mix64(ws.HideSeed^nodeKey(n)^77)%4 == 0 {
+				return c - 1 // hide the last child
+			}
+			return c
+		}
+	case "child-only":
+		// only Child is supplied: children are presented in reverse order;
+		// ChildCount stays the default accessor
+		v.root = pickRoot()
+		v.child = func(n commonmark.Node, i int) commonmark.Node {
+			return n.Child(n.ChildCount() - 1 - i)
+		}
 	default:
 		panic("unknown view " + ws.View)
 	}
